@@ -14,7 +14,7 @@ def jobs(tier):
     js += [(W.unit_tpm2b, (n, "strict")) for n in sorted(L0["tpm2b"])]
     js += [(W.unit_array, (e, "strict", True)) for e in ("TPMS_AUTH_COMMAND", "TPMS_AUTH_RESPONSE")]
     js += [j for j in D.g_frames(m)]
-    return js + D.g_crosscheck(tier, SEED[0], only_frames=True)
+    return js + D.g_crosscheck(tier, SEED[0], only_frames=True) + D.g_dispatch(("strict",))
 
 
 def keep(name, ob):
